@@ -34,8 +34,9 @@ pub fn generate(prop: &str, scenario: &str, seed: u64, run: u64) -> (Config, Vec
     match scenario {
         "hist" => {
             let systematic = matches!(prop, "C10" | "C12");
-            if systematic && run < SYSTEMATIC_HIST {
-                systematic_hist(prop, run)
+            // even run indices walk through the systematic corner until it is exhausted
+            if systematic && run % 2 == 0 && run / 2 < SYSTEMATIC_HIST {
+                systematic_hist(prop, run / 2)
             } else {
                 gen_hist(prop, &mut rng)
             }
@@ -551,6 +552,10 @@ fn gen_replica(_prop: &str, rng: &mut Rng) -> (Config, Vec<Op>) {
         queues.push(q);
     }
     let f_pollute = rng.chance(1, 2);
+    // some replicas are searched while deliveries are still arriving (an empty-query search
+    // primes the top-rated cache at the worst moment); the answers must still converge
+    let f_midsearch = rng.chance(1, 2);
+    let delivered_titles: Vec<String> = msgs.iter().map(|m| m.1.clone()).collect();
     loop {
         let pending: Vec<usize> = (0..replicas).filter(|&s| !queues[s].is_empty()).collect();
         if pending.is_empty() {
@@ -559,6 +564,15 @@ fn gen_replica(_prop: &str, rng: &mut Rng) -> (Config, Vec<Op>) {
         let s = *rng.pick(&pending);
         let (id, title, rating) = queues[s].pop().unwrap();
         ops.push(Op::Add { s, id, title, rating });
+        if f_midsearch && rng.chance(1, 6) {
+            let q = if rng.chance(2, 3) {
+                separator_query(rng)
+            } else {
+                let t = rng.pick(&delivered_titles).clone();
+                type_query(rng, &t)
+            };
+            ops.push(Op::Search { s, q, deep: false });
+        }
         if f_pollute && rng.chance(1, 12) {
             ops.push(pollute_op(rng, thread_of[s]));
         }
@@ -568,7 +582,7 @@ fn gen_replica(_prop: &str, rng: &mut Rng) -> (Config, Vec<Op>) {
             ops.push(Op::Migrate { s, t });
         }
     }
-    // searches only after delivery has completed (keeps C07 independent of cache invalidation)
+    // the compared searches come after delivery has completed
     let titles: Vec<String> = msgs.iter().map(|m| m.1.clone()).collect();
     for _ in 0..rng.range(1, 6) {
         let q = match rng.below(8) {
